@@ -51,6 +51,8 @@ def gen_plan(seed, i, tier):
     if rng.chance(0.4):
         grow = GROW if 'synth' not in init else ['AddNode', 'AddExtraData', 'AddLooseBlock', 'SetNodeName', 'ReplaceWithClone', 'MoveBlocks', 'UnlinkFromNode', 'RebuildRefArray']
         plan['pre'] = [edits.edit_step(rng, 'quick', allow=grow, version_hint=ver) for _ in range(rng.range(1, 5))]
+        if rng.chance(0.3):
+            plan['pre'].append({'op': 'MoveBlocks', 'mode': 'nodes', 'salt': rng.below(1 << 30), 'shape': 0})   # node blocks in another order
     steps = []
     for _ in range(rng.range(1, 5)):
         op = rng.weighted([('PrettySort', 4), ('Optimize', 2), ('SetShapeOrder', 4), ('SaveDefault', 3), ('Restart', 1)])
